@@ -315,6 +315,12 @@ def kallen_rel(args):
 
 def known_match(entry, case, fail):
     m = entry.get("match", {})
+    if case.get("f") in m.get("functions", []) and "u_max" in m and len(case["args"]) == 3:
+        x, y, z = sorted(case["args"])
+        if z <= 0:
+            return False
+        u, v = x / z, y / z
+        return u < m["u_max"] and v < 1 and u / (1 - v) ** 2 > m["u_over_a2_min"]
     if case.get("f") in m.get("functions", []) and "lambda2_rel_max" in m:
         a = case["args"]
         rels = [kallen_rel(a)]
